@@ -130,6 +130,17 @@ def jobs(tier):
                       'label': 'unbounded' if numeric else 'bounded', 'timeout': 900, 'replay': None,
                       'cbmc_flags': ['--unwind', str(cap + 2), '--unwinding-assertions'], 'tiers': ['quick', 'thorough'],
                       'shape': ('all bit patterns of all three widths; text loops bounded by the text width, unwinding assertions on (complete)' if numeric else 'data_size <= %d (BOUNDED stand-in), all byte contents' % ds) + '; capacity %d' % cap})
+    for fn, props, repl in (('to_upper', ['C02', 'C03'], []), ('is_valid_cmd_name_char', ['C02', 'C03'], []), ('is_valid_dec_char', ['C04', 'C03'], []),
+                            ('is_valid_hex_char', ['C04', 'C05', 'C03'], []), ('convert_hex_char_to_value', ['C04', 'C05', 'C03'], []),
+                            ('get_cmd_state', ['C02', 'C09', 'C03'], ['is_command_disable']), ('set_cmd_state', ['C02', 'C03'], []),
+                            ('search_command', ['C01', 'C02', 'C03'], ['get_cmd_state', 'get_command_by_index'])):
+        j = L0(fn, props, harness='l0_small.c', defines=['SMALL_' + fn], replace=repl)
+        j['shape'] = 'all 256 character values / any table size up to 4 x capacity, capacity 6..4096 symbolic'
+        J.append(j)
+    for fn, extra in (('get_command_by_index', []), ('is_command_disable', ['T_DISABLE'])):
+        j = L0(fn, ['C02', 'C09', 'C03'], harness='l0_table.c', defines=extra, label='shape-bounded', cbmc_flags=['--unwind', '14', '--unwinding-assertions'])
+        j['shape'] = 'up to 4 groups of 1..3 commands each, every disable-flag combination, every index'
+        J.append(j)
     for st in AT_STATES:
         J.append(L1('at', st, 'sh16'))
     for st in UN_STATES:
